@@ -80,6 +80,9 @@ class TlcStats:
         self.init_states += o.init_states
 
 
+TLC_CLASSPATH = "/opt/veriftools/tla/tla2tools.jar:/opt/veriftools/tla/CommunityModules-deps.jar"
+
+
 def run_tlc(module, cfg, tag, on_scn=None, workers=16, timeout=1800, env_extra=None,
             simulate=None, java_opts=None, coverage=True, on_line=None):
     """Run TLC on spec/<module>.tla with spec/<cfg>; call on_scn(obj) for every scenario
@@ -88,7 +91,12 @@ def run_tlc(module, cfg, tag, on_scn=None, workers=16, timeout=1800, env_extra=N
     meta = os.path.join(OUT, "work", tag)
     shutil.rmtree(meta, ignore_errors=True)
     os.makedirs(meta, exist_ok=True)
-    cmd = ["timeout", str(timeout), "tlc", "-workers", str(workers), "-metadir", meta, "-cleanup",
+    # JVM options go on the COMMAND LINE: the launcher sizes the main thread (which computes the initial states)
+    # from its own arguments only - options in JAVA_TOOL_OPTIONS reach the threads started later, not that one
+    tlc = ["tlc"]
+    if java_opts:
+        tlc = ["java"] + java_opts.split() + ["-XX:+UseParallelGC", "-cp", TLC_CLASSPATH, "tlc2.TLC"]
+    cmd = ["timeout", str(timeout)] + tlc + ["-workers", str(workers), "-metadir", meta, "-cleanup",
            "-noGenerateSpecTE", "-config", cfg]
     if coverage and not simulate:
         cmd += ["-coverage", "1"]
@@ -98,8 +106,6 @@ def run_tlc(module, cfg, tag, on_scn=None, workers=16, timeout=1800, env_extra=N
     env = dict(os.environ)
     if env_extra:
         env.update(env_extra)
-    if java_opts:
-        env["JAVA_TOOL_OPTIONS"] = java_opts
     st = TlcStats()
     t0 = time.time()
     p = subprocess.Popen(cmd, cwd=SPEC, env=env, stdout=subprocess.PIPE, stderr=subprocess.STDOUT,
